@@ -17,15 +17,15 @@ from vf.scen import CLOSED, CONNECTED, HS, INIT, OPENED, World, outcome
 # ---- alphabet
 DRAIN, TURN, TIMER, START, FINISH, DISCONNECT, FORCE, CANCEL, CONNECT_OK, CONNECT_ERR = range(10)
 D_HELLO, D_CONNECT, D_GARBAGE, D_DISCREQ, D_DISCRESP, D_MSG, D_BADPAYLOAD, EOF, RESET, WRITEFAIL, FLUSH = range(10, 21)
-D_CONNECT_BAD, D_NOISEMARK, RESOLVE_OK, CANCEL_DISC = range(21, 25)
-NEV = 25
+D_CONNECT_BAD, D_NOISEMARK, RESOLVE_OK, CANCEL_DISC, LONGWAIT, D_PINGREQ, REQUEST, D_DEVINFO, RESOLVE_ERR, CANCEL_REQ = range(21, 31)
+NEV = 31
 NAMES = ["DRAIN", "TURN", "TIMER", "START", "FINISH", "DISCONNECT", "FORCE", "CANCEL", "CONNECT_OK", "CONNECT_ERR",
          "D_HELLO", "D_CONNECT", "D_GARBAGE", "D_DISCREQ", "D_DISCRESP", "D_MSG", "D_BADPAYLOAD", "EOF", "RESET",
-         "WRITEFAIL", "FLUSH", "D_CONNECT_BAD", "D_NOISEMARK", "RESOLVE_OK", "CANCEL_DISC"]
+         "WRITEFAIL", "FLUSH", "D_CONNECT_BAD", "D_NOISEMARK", "RESOLVE_OK", "CANCEL_DISC", "LONGWAIT", "D_PINGREQ", "REQUEST", "D_DEVINFO", "RESOLVE_ERR", "CANCEL_REQ"]
 DEVICE_BYTES = {
     D_HELLO: scen.HELLO_OK, D_CONNECT: scen.CONNECT_OK, D_GARBAGE: scen.GARBAGE, D_DISCREQ: scen.DISC_REQ,
     D_DISCRESP: scen.DISC_RESP, D_MSG: scen.SENSOR, D_BADPAYLOAD: scen.BAD_PAYLOAD, D_CONNECT_BAD: scen.CONNECT_BAD,
-    D_NOISEMARK: scen.NOISE_MARK,
+    D_NOISEMARK: scen.NOISE_MARK, D_PINGREQ: scen.PING_REQ, D_DEVINFO: scen.DEVINFO,
 }
 
 # stages
@@ -46,6 +46,10 @@ class Scenario:
         self.returned_state: list = []  # (kind, state right after the awaited phase returned normally)
         self.stage = stage
         self.sub_log: list = []  # messages delivered to the test subscriber: (virtual time, conn state at delivery)
+        self.cancelled_by_harness: set = set()
+        self.pending_evs: list = []  # device events making up the pending chunk
+        self.chunks: list = []  # (list of device events, connection state before delivery)
+        self.subscribe_probe()
         self._setup(stage)
 
     # ---- helpers
@@ -66,9 +70,11 @@ class Scenario:
         rs = self.returned_state
 
         async def wrapper():
-            r = await coro_fn()
+            try:
+                r = await coro_fn()
+            finally:
+                info["t_end"] = self.loop.time()
             rs.append((kind, conn.connection_state))
-            info["t_end"] = self.loop.time()
             return r
 
         t = self.loop.create_task(wrapper())
@@ -85,6 +91,8 @@ class Scenario:
         if not self.pending:
             return False
         data, self.pending = self.pending, b""
+        self.chunks.append((self.pending_evs, self.conn.connection_state))
+        self.pending_evs = []
         ok = self.w.feed(data)
         self.observe()
         return ok
@@ -125,7 +133,6 @@ class Scenario:
             return
         w.feed(scen.HELLO_OK + (scen.CONNECT_OK if login else b""))
         self.drain()
-        self.subscribe_probe()
         if stage == ST_CONNECTED:
             return
         self.spawn("disconnect", self.conn.disconnect)
@@ -140,6 +147,7 @@ class Scenario:
             if tr is None or tr.closing:
                 return False
             self.pending += DEVICE_BYTES[ev]
+            self.pending_evs.append(ev)
             return True
         flushed = self.flush()
         if ev == FLUSH:
@@ -181,11 +189,13 @@ class Scenario:
             if not cands:
                 return False
             cands[-1].cancel()
+            self.cancelled_by_harness.add(id(cands[-1]))
         elif ev == CANCEL_DISC:
             cands = [t for k, t, _ in self.tasks if k == "disconnect" and not t.done()]
             if not cands:
                 return False
             cands[-1].cancel()
+            self.cancelled_by_harness.add(id(cands[-1]))
         elif ev == CONNECT_OK:
             if not w.complete_connect():
                 return False
@@ -205,6 +215,39 @@ class Scenario:
             if tr is None or tr.closing:
                 return False
             tr.feed_reset()
+        elif ev == REQUEST:
+            if len(self.tasks_of("request")) >= 2:
+                return False
+            from aioesphomeapi.api_pb2 import DeviceInfoRequest, DeviceInfoResponse
+
+            self.spawn("request", lambda: conn.send_message_await_response(DeviceInfoRequest(), DeviceInfoResponse))
+        elif ev == CANCEL_REQ:
+            cands = [t for k, t, _ in self.tasks if k == "request" and not t.done()]
+            if not cands:
+                return False
+            cands[-1].cancel()
+            self.cancelled_by_harness.add(id(cands[-1]))
+        elif ev == RESOLVE_ERR:
+            done = False
+            for f in w.resolve_futs:
+                if not f.done():
+                    f.set_exception(OSError("resolver failed"))
+                    done = True
+                    break
+            if not done:
+                return False
+        elif ev == LONGWAIT:
+            # the device stays silent for 7 keepalive periods (every timer due in between fires)
+            self.drain()
+            target = loop.time() + 7 * self.w.params.keepalive
+            while True:
+                t = loop.next_timer()
+                if t is None or t._when > target:
+                    break
+                loop.turn()
+                self.observe()
+                self.drain()
+            loop._vnow = target
         elif ev == WRITEFAIL:
             tr = w.transport
             if tr is None or tr.closing or tr.fail_writes is not None:
@@ -212,6 +255,21 @@ class Scenario:
             tr.fail_writes = OSError("write failed")
         self.observe()
         return True
+
+    def run_out(self, max_steps: int = 60) -> bool:
+        """let virtual time pass until every spawned call has finished; False = deadlock (a call is
+        pending, nothing is ready and no timer is armed)."""
+        self.flush()
+        self.drain()
+        n = 0
+        while any(not t.done() for _k, t, _i in self.tasks) and n < max_steps:
+            if self.loop.next_timer() is None:
+                return False
+            self.loop.turn()
+            self.observe()
+            self.drain()
+            n += 1
+        return all(t.done() for _k, t, _i in self.tasks)
 
     def settle(self) -> None:
         """deliver what is pending and let the loop go quiet (virtual time does not move)."""
